@@ -1,4 +1,5 @@
 import BeffVerif.Props.C01
+import BeffVerif.Props.C01Frag
 open BeffVerif.C01
 #print axioms keyword_types_exact
 #print axioms string_literal_exact
@@ -10,3 +11,6 @@ open BeffVerif.C01
 #print axioms number_keyed_record_rejects
 #print axioms non_object_intersection_rejects
 #print axioms template_anchored
+#print axioms BeffVerif.C01F.frag_chain
+#print axioms BeffVerif.C01F.fragment_compiles
+#print axioms BeffVerif.C01F.fragment_exact
